@@ -4,7 +4,8 @@ from __future__ import annotations
 
 import ast
 
-from ..cfg import CFG
+from ..astutil import CondUnknown, eval_cond, inside
+from ..cfg import CFG, cond_strings
 from ..core import AnalysisError, const_value
 from ..defuse import DefUse, Terms, show, walk_term
 from ..flow import Flow
@@ -167,17 +168,17 @@ def _first_seen_wins(ctx, f):
     key_expr = st.test.left
     adds = [n for n in ast.walk(ll) if isinstance(n, ast.Call)
             and isinstance(n.func, ast.Attribute) and n.func.attr == "add"]
-    ok_add = len(adds) == 1 and ast.unparse(adds[0].func.value) == \
-        ast.unparse(seen_expr) and adds[0].args and ast.unparse(
-            adds[0].args[0]) == ast.unparse(key_expr)
+    seen_t = T.of(seen_expr)
+    ok_add = len(adds) == 1 and T.of(adds[0].func.value) == seen_t and \
+        len(adds[0].args) == 1 and T.of(adds[0].args[0]) == T.of(key_expr)
     ctx.check(ok_add, "C03b-seen-add", f,
               "the key tested against the seen-set is the key added to it",
               f"test on {ast.unparse(st.test)}; adds: "
               f"{[ast.unparse(a) for a in adds]}", node=st)
-    ctx.check(isinstance(seen_expr, ast.Subscript) and ast.unparse(
-        seen_expr.slice) == lvl_var, "C03b-seen-per-level", f,
-        "each level has its own seen-set",
-        f"seen-set expression is {ast.unparse(seen_expr)}", node=st)
+    ctx.check(seen_t[0] == "sub" and seen_t[2] == ("elem", lv_it),
+              "C03b-seen-per-level", f,
+              "each level has its own seen-set",
+              f"seen-set expression is {show(seen_t, 100)}", node=st)
     # key built from the level's hash columns of this row
     kt = T.of(key_expr)
     ok_key = False
@@ -279,29 +280,40 @@ def _first_seen_wins(ctx, f):
                   "the 'psms' level is keyed by the spectrum columns",
                   "level_hash_columns['psms'] is not the dataset's "
                   "spectrum_columns", node=hc[0] if hc else f.node)
-    # guard: psms-level competition only when de-duplication is on
-    gs = cfg.guards(st)
-    dd = [g for g in gs if any(x is g[0] for s in ll.body
-                               for x in ast.walk(s)) and g[0] is not st.test]
-    ok_g = False
-    for test, pol in dd:
-        if pol and isinstance(test, ast.BoolOp) and isinstance(
-                test.op, ast.Or) and len(test.values) == 2:
-            a, b = test.values
-            for x, y in ((a, b), (b, a)):
-                if isinstance(x, ast.Compare) and ast.unparse(
-                        x.left) == lvl_var and isinstance(
-                            x.ops[0], ast.NotEq) and const_value(
-                                x.comparators[0]) == "psms" and isinstance(
-                                    y, ast.Name):
-                    roots = du.backward_roots(y)
-                    ok_g = roots == {("param", "deduplication")}
+    # guard: psms-level competition only when de-duplication is on.  The
+    # conditions (inside the level loop) under which the seen-test runs are
+    # evaluated for every (level, deduplication) valuation
+    conds = [(t, o) for t, o in cfg.necessary_conditions(st)
+             if inside(t, ll) and t is not st.test]
+    flag_names = set()
+    for t, _o in conds:
+        for nm in ast.walk(t):
+            if isinstance(nm, ast.Name) and nm.id != lvl_var and \
+                    du.backward_roots(nm) == {("param", "deduplication")}:
+                flag_names.add(nm.id)
+    ok_g = bool(conds)
+    table = []
+    try:
+        for lvl in ("psms", "peptides", "proteins", "precursors"):
+            for dd in (True, False):
+                env = {lvl_var: lvl}
+                env.update({n: dd for n in flag_names})
+                runs = all(bool(eval_cond(t, env)) == o for t, o in conds)
+                table.append((lvl, dd, runs))
+                if runs != (lvl != "psms" or dd):
+                    ok_g = False
+    except CondUnknown as e:
+        ok_g = False
+        table.append(("cannot evaluate", str(e), None))
+    except KeyError as e:
+        ok_g = False
+        table.append(("unknown name", str(e), None))
     ctx.check(ok_g, "C03c-dedup-guard", f,
               "spectrum-level competition is applied iff deduplication is "
-              "on; higher levels always",
-              "the guard around the seen-test is not "
-              "'level != \"psms\" or deduplication': "
-              f"{[ast.unparse(g[0]) for g in dd]}", node=st)
+              "on; higher levels always (8 valuations)",
+              "the seen-test does not run exactly when 'level != \"psms\" or "
+              f"deduplication': guards {[cond_strings(t, o) for t, o in conds]}"
+              f", (level, deduplication, runs) = {table}", node=st)
 
 
 def _rollup_levels(ctx, f):
@@ -555,14 +567,20 @@ def _target_decoy_routing(ctx):
     why = ""
     if len(ofs) == 1 and len(apd) == 1 and isinstance(
             ofs[0].value, ast.List) and len(ofs[0].value.elts) == 1:
-        t0 = show(T2.of(ofs[0].value.elts[0]), 300)
-        t1 = show(T2.of(apd[0].args[0]), 300)
-        ok_o = "targets." in t0 and "decoys." not in t0 and \
-            "decoys." in t1 and "targets." not in t1
-        why = f"position 0 = {t0[:80]}, appended = {t1[:80]}"
+        def strs(t):
+            return [x[1] for x in walk_term(t) if isinstance(x, tuple)
+                    and len(x) == 2 and x[0] == "const"
+                    and isinstance(x[1], str)]
+        s0 = strs(T2.of(ofs[0].value.elts[0]))
+        s1 = strs(T2.of(apd[0].args[0]))
+        ok_o = any("targets." in x for x in s0) and not any(
+            "decoys." in x for x in s0) and any(
+                "decoys." in x for x in s1) and not any(
+                    "targets." in x for x in s1)
+        why = (f"position 0 is named with {s0}, the appended path with "
+               f"{s1}")
         cg = CFG(g.node)
-        ok_o = ok_o and any(ast.unparse(x[0]) == "decoys" and x[1]
-                            for x in cg.guards(apd[0]))
+        ok_o = ok_o and "decoys" in cg.conditions(apd[0])
     ctx.check(ok_o, "C03d-path-order", g,
               "out_files[level] = [targets path] (+ decoys path iff decoys)",
               why or "idiom not recognised", node=g.node)
